@@ -16,6 +16,8 @@ open WuffsVerif.Rac.ChunkReader (chunkAt CRInv NextResult ChunkGood)
 `ChunkReader` right after `initialize`. -/
 structure SInv (k : Codec) (o : ChunkReader.Reader) (s : S) : Prop where
   cr : CRInv o s.cr
+  le1 : s.r.dlo ≤ s.r.pos
+  le2 : s.r.pos ≤ s.r.dhi
   phA : s.r.phase = .A → s.cr.seekPos = s.r.pos
   phBC : s.r.phase ≠ .A → LoadedR k o s.r ∧ s.cr.seekPos = s.r.dhi
 
@@ -58,11 +60,11 @@ theorem nextChunk_spec {k : Codec} {o : ChunkReader.Reader} (s : S) (he : s.r.er
     simp only at hout
     subst hout
     obtain ⟨hcr, hsp⟩ := heof hres
-    refine ⟨rfl, hg, by intro h; cases h, ?_⟩
+    refine ⟨rfl, hg, (by intro h; cases h), ?_⟩
     intro e h
     cases h
     left
-    refine ⟨rfl, rfl, ⟨hcr, ?_, ?_⟩, ?_⟩
+    refine ⟨rfl, rfl, ⟨hcr, hs.le1, hs.le2, ?_, ?_⟩, ?_⟩
     · intro _; show s.cr.next.1.seekPos = s.r.pos; rw [hsp]; exact hpos
     · intro h; exact absurd hA h
     · rw [hres] at hv
@@ -73,7 +75,7 @@ theorem nextChunk_spec {k : Codec} {o : ChunkReader.Reader} (s : S) (he : s.r.er
     simp only at hout
     subst hout
     obtain ⟨_, hne⟩ := herr e hres
-    refine ⟨rfl, ⟨by intro h; cases h, by intro h; cases h, ?_⟩, by intro h; cases h, ?_⟩
+    refine ⟨rfl, ⟨(by intro h; cases h), (by intro h; cases h), ?_⟩, (by intro h; cases h), ?_⟩
     · intro h
       have : e = .panic := by
         simp only [S.fail, Option.some.injEq, Cause.cr.injEq] at h
@@ -100,9 +102,9 @@ theorem nextChunk_spec {k : Codec} {o : ChunkReader.Reader} (s : S) (he : s.r.er
       rw [hd] at hout
       simp only at hout
       subst hout
-      refine ⟨rfl, ?_, by intro h; cases h, ?_⟩
+      refine ⟨rfl, ?_, (by intro h; cases h), ?_⟩
       · rcases decoded_err hd with h | h <;> rw [h] <;>
-          exact ⟨by intro h; cases h, by intro h; cases h, by intro h; cases h⟩
+          exact ⟨(by intro h; cases h), (by intro h; cases h), by intro h; cases h⟩
       · intro e' h
         cases h
         exact Or.inr ⟨rfl, rfl⟩
@@ -113,7 +115,9 @@ theorem nextChunk_spec {k : Codec} {o : ChunkReader.Reader} (s : S) (he : s.r.er
       subst hout
       refine ⟨rfl, hg, ?_, by intro e h; cases h⟩
       intro _
-      refine ⟨he, ⟨hcr, by intro h; cases h, ?_⟩, rfl, rfl, ?_, ?_, rfl, rfl, rfl⟩
+      have hlo' : c.dLo ≤ s.r.pos := by have := hgood.2.1; omega
+      have hhi' : s.r.pos < c.dHi := by have := hgood.2.2; omega
+      refine ⟨he, ⟨hcr, hlo', Nat.le_of_lt hhi', (by intro h; cases h), ?_⟩, rfl, rfl, ?_, ?_, rfl, rfl, rfl⟩
       · intro _
         refine ⟨⟨c, data, tr, chunkAt_same' hs.cr hv.symm (Nat.le_refl _) (by have := hgood.1.2.2.1; omega),
           hd, rfl, Nat.le_refl _, ?_, fun _ => rfl, by intro h; cases h⟩, hsp⟩
@@ -146,6 +150,33 @@ def pot (r : R) (n : Nat) : Nat := 4 * n + potv r.phase (decide (r.pos < r.dhi))
 /-- 1 when the loaded chunk still owes a byte -/
 def owed (r : R) : Nat := owedv r.phase (decide (r.pos < r.dhi))
 
+theorem pot_A (r : R) (n : Nat) (h : r.phase = .A) : pot r n = 4 * n + 2 := by
+  simp [pot, potv, h]
+
+theorem pot_B (r : R) (n : Nat) (h : r.phase = .B) :
+    pot r n = 4 * n + (if r.pos < r.dhi then 1 else 4) := by
+  unfold pot; rw [h]
+  by_cases hlt : r.pos < r.dhi <;> simp [potv, hlt]
+
+theorem pot_C (r : R) (n : Nat) (h : r.phase = .C) :
+    pot r n = 4 * n + (if r.pos < r.dhi then 0 else 3) := by
+  unfold pot; rw [h]
+  by_cases hlt : r.pos < r.dhi <;> simp [potv, hlt]
+
+theorem owed_A (r : R) (h : r.phase = .A) : owed r = 0 := by
+  simp [owed, owedv, h]
+
+theorem owed_B (r : R) (h : r.phase = .B) : owed r = if r.pos < r.dhi then 1 else 0 := by
+  unfold owed; rw [h]
+  by_cases hlt : r.pos < r.dhi <;> simp [owedv, hlt]
+
+theorem owed_C (r : R) (h : r.phase = .C) : owed r = if r.pos < r.dhi then 1 else 0 := by
+  unfold owed; rw [h]
+  by_cases hlt : r.pos < r.dhi <;> simp [owedv, hlt]
+
+theorem owed_le (r : R) : owed r ≤ 1 := by
+  unfold owed owedv; split <;> omega
+
 /-- **the Read loop.**  With fuel above the potential the loop returns (never `none`); the
 bytes are the file's meaning at `pos, pos+1, …`; at most `n` NextChunk calls are made (one
 fewer when a loaded chunk still owes a byte); the invariant is kept or the error is sticky. -/
@@ -159,7 +190,8 @@ theorem readLoop_ok {k : Codec} {o : ChunkReader.Reader} :
         (s'.r.err = none → SInv k o s' ∧ s'.r.pos = s.r.pos + bs.length ∧
           s'.r.posLimit = s.r.posLimit ∧ s'.r.closed = s.r.closed ∧ s'.r.conc = s.r.conc) ∧
         (e = none → s'.r.err = none) ∧
-        (∀ x, e = some x → s'.r.err = some x ∨ (x = .eof ∧ s'.r.err = none)) := by
+        (∀ x, e = some x → (s'.r.err = some x ∨ (x = .eof ∧ s'.r.err = none)) ∧
+          x ≠ .inconsistent) := by
   intro fuel
   induction fuel with
   | zero => intro s n _ _ _ h; omega
@@ -168,24 +200,19 @@ theorem readLoop_ok {k : Codec} {o : ChunkReader.Reader} :
     unfold readLoop
     by_cases hlim : s.r.pos ≥ s.r.posLimit
     · simp only [hlim, ↓reduceIte]
-      refine ⟨s, [], some .eof, rfl, by intro i hi; simp at hi, by simp, by intro h; cases h,
-        by omega, hg, fun _ => ⟨hs, by simp, rfl, rfl, rfl⟩, by intro h; cases h, ?_⟩
-      intro x hx; cases hx; exact Or.inr ⟨rfl, he⟩
+      refine ⟨s, [], some .eof, rfl, by intro i hi; simp at hi, by simp, (by intro h; cases h),
+        by omega, hg, fun _ => ⟨hs, by simp, rfl, rfl, rfl⟩, (by intro h; cases h), ?_⟩
+      intro x hx; cases hx; exact ⟨Or.inr ⟨rfl, he⟩, by intro h; cases h⟩
     simp only [hlim, ↓reduceIte]
     by_cases hn0 : n = 0
     · simp only [hn0, ↓reduceIte]
       refine ⟨s, [], none, rfl, by intro i hi; simp at hi, by simp, fun _ => rfl,
         by omega, hg, fun _ => ⟨hs, by simp, rfl, rfl, rfl⟩, fun _ => he, by intro x hx; cases hx⟩
     simp only [hn0, ↓reduceIte]
-    by_cases hinc : s.r.pos < s.r.dlo ∨ s.r.dhi < s.r.pos
-    · simp only [hinc, ↓reduceIte]
-      refine ⟨_, [], some .inconsistent, rfl, by intro i hi; simp at hi, by simp,
-        by intro h; cases h, by show s.fetches ≤ _; omega, hg, by intro h; cases h,
-        by intro h; cases h, ?_⟩
-      intro x hx; cases hx; exact Or.inl rfl
+    have hle : s.r.dlo ≤ s.r.pos := hs.le1
+    have hhi : s.r.pos ≤ s.r.dhi := hs.le2
+    have hinc : ¬ (s.r.pos < s.r.dlo ∨ s.r.dhi < s.r.pos) := by omega
     simp only [hinc, ↓reduceIte]
-    have hle : s.r.dlo ≤ s.r.pos := by omega
-    have hhi : s.r.pos ≤ s.r.dhi := by omega
     have hn : 0 < n := by omega
     cases hph : s.r.phase with
     | A =>
@@ -198,9 +225,9 @@ theorem readLoop_ok {k : Codec} {o : ChunkReader.Reader} :
         cases e1 with
         | some e =>
           simp only
-          refine ⟨s1, [], some e, rfl, by intro i hi; simp at hi, by simp, by intro h; cases h,
-            ?_, hg1, ?_, by intro h; cases h, ?_⟩
-          · have : owed s.r = 0 := by simp [owed, owedv, hph]
+          refine ⟨s1, [], some e, rfl, by intro i hi; simp at hi, by simp, (by intro h; cases h),
+            ?_, hg1, ?_, (by intro h; cases h), ?_⟩
+          · have : owed s.r = 0 := owed_A _ hph
             omega
           · intro he1
             rcases herr e rfl with ⟨_, hr, hs1, _⟩ | ⟨_, hbad⟩
@@ -209,22 +236,22 @@ theorem readLoop_ok {k : Codec} {o : ChunkReader.Reader} :
           · intro x hx
             cases hx
             rcases herr e rfl with ⟨h1, hr, _, _⟩ | ⟨h1, hbad⟩
-            · right; exact ⟨h1, by rw [hr]; exact he⟩
-            · left; rw [h1]; exact hbad
+            · exact ⟨Or.inr ⟨h1, by rw [hr]; exact he⟩, by rw [h1]; intro h; cases h⟩
+            · exact ⟨Or.inl (by rw [h1]; exact hbad), by rw [h1]; intro h; cases h⟩
         | none =>
           simp only
           obtain ⟨he1, hs1, hB1, hp1, hlo1, hhi1, hl1, hc1, hcc1⟩ := hok rfl
           have hpot1 : pot s1.r n < fuel := by
             have h1 : pot s1.r n = 4 * n + 1 := by
-              simp [pot, potv, hB1, hp1, hhi1]
-            have h2 : pot s.r n = 4 * n + 2 := by simp [pot, potv, hph]
+              rw [pot_B _ _ hB1, hp1]; simp [hhi1]
+            have h2 : pot s.r n = 4 * n + 2 := pot_A _ _ hph
             omega
           obtain ⟨s', bs, e, hrun, hbytes, hlen, hfull, hfet, hg', hinv', hnone, hsome⟩ :=
             ih s1 n he1 hs1 hg1 hpot1
           refine ⟨s', bs, e, hrun, ?_, hlen, hfull, ?_, hg', ?_, hnone, hsome⟩
           · intro i hi; rw [hbytes i hi, hp1]
-          · have h1 : owed s1.r = 1 := by simp [owed, owedv, hB1, hp1, hhi1]
-            have h2 : owed s.r = 0 := by simp [owed, owedv, hph]
+          · have h1 : owed s1.r = 1 := by rw [owed_B _ hB1, hp1]; simp [hhi1]
+            have h2 : owed s.r = 0 := owed_A _ hph
             omega
           · intro h
             obtain ⟨a1, a2, a3, a4, a5⟩ := hinv' h
@@ -241,40 +268,33 @@ theorem readLoop_ok {k : Codec} {o : ChunkReader.Reader} :
         cases e1 with
         | some e =>
           simp only
-          refine ⟨{ s with r := r' }, bs, some e, rfl, hb, hblen, by intro h; cases h,
-            by show s.fetches ≤ _; omega, hg, ?_, by intro h; cases h, ?_⟩
+          refine ⟨{ s with r := r' }, bs, some e, rfl, hb, hblen, (by intro h; cases h),
+            by show s.fetches ≤ _; omega, hg, ?_, (by intro h; cases h), ?_⟩
           · intro h
-            have := hberr e rfl
+            have := (hberr e rfl).1
             rw [this] at h; cases h
           · intro x hx'
             cases hx'
-            exact Or.inl (hberr e rfl)
+            refine ⟨Or.inl (hberr e rfl).1, ?_⟩
+            rcases (hberr e rfl).2 with h | h | h <;> rw [h] <;> intro h' <;> cases h'
         | none =>
           simp only
           obtain ⟨he1, f, hp1, hL1, hlo1, hhi1, hphase⟩ := hbok rfl
           have hs1 : SInv k o { s with r := r' } := by
-            refine ⟨hs.cr, ?_, ?_⟩
+            refine ⟨hs.cr, hlo1, by show r'.pos ≤ r'.dhi; rw [f.dhi]; exact hhi1, ?_, ?_⟩
             · intro hA
               rcases hphase with h | ⟨h, _⟩ <;> rw [h] at hA <;> cases hA
             · intro _
               exact ⟨hL1, by show s.cr.seekPos = r'.dhi; rw [f.dhi]; exact hsp⟩
           have hpot1 : pot r' (n - bs.length) < fuel := by
-            have h0 : pot s.r n = 4 * n + (if s.r.pos < s.r.dhi then 1 else 4) := by
-              simp only [pot, potv, hph]
-              split <;> simp [*]
+            have h0 := pot_B s.r n hph
             rcases hphase with hC | ⟨hB, hpos⟩
-            · have h1 : pot r' (n - bs.length) =
-                  4 * (n - bs.length) + (if r'.pos < r'.dhi then 0 else 3) := by
-                simp only [pot, potv, hC]
-                split <;> simp [*]
+            · have h1 := pot_C r' (n - bs.length) hC
               have hd := f.dhi
               rw [h0] at hpot
               rw [h1]
               split <;> split at hpot <;> omega
-            · have h1 : pot r' (n - bs.length) =
-                  4 * (n - bs.length) + (if r'.pos < r'.dhi then 1 else 4) := by
-                simp only [pot, potv, hB]
-                split <;> simp [*]
+            · have h1 := pot_B r' (n - bs.length) hB
               have hd := f.dhi
               rw [h0] at hpot
               rw [h1]
@@ -297,20 +317,18 @@ theorem readLoop_ok {k : Codec} {o : ChunkReader.Reader} :
           · simp only [List.length_append]; omega
           · intro h; simp only [List.length_append]; have := hfull h; omega
           · -- fetches
-            have ho : owed r' ≤ 1 := by
-              unfold owed owedv; split <;> omega
+            have ho : owed r' ≤ 1 := owed_le r'
             have hfet' : s'.fetches ≤ s.fetches + (n - bs.length - owed r') := hfet
             have : owed s.r ≤ bs.length + owed r' := by
               rcases hphase with hC | ⟨hB, hpos⟩
               · by_cases hb0 : bs.length = 0
                 · have hpe : r'.pos = s.r.pos := by rw [hp1, hb0]; rfl
                   have : owed r' = owed s.r := by
-                    simp only [owed, owedv, hC, hph, hpe, f.dhi]
-                    split <;> simp_all
+                    rw [owed_C _ hC, owed_B _ hph, hpe, f.dhi]
                   omega
-                · have : owed s.r ≤ 1 := by unfold owed owedv; split <;> omega
+                · have : owed s.r ≤ 1 := owed_le _
                   omega
-              · have : owed s.r ≤ 1 := by unfold owed owedv; split <;> omega
+              · have : owed s.r ≤ 1 := owed_le _
                 omega
             omega
           · intro h
@@ -330,7 +348,8 @@ theorem readLoop_ok {k : Codec} {o : ChunkReader.Reader} :
         simp only at hz hk hze f hzp hzd hzph
         have he1 : r'.err = none := by rw [hze]; exact he
         have hs1 : SInv k o { s with r := r' } := by
-          refine ⟨hs.cr, ?_, ?_⟩
+          refine ⟨hs.cr, by show r'.dlo ≤ r'.pos; omega,
+            by show r'.pos ≤ r'.dhi; have := f.dhi; omega, ?_, ?_⟩
           · intro hA
             show s.cr.seekPos = r'.pos
             rcases hzph with ⟨_, h⟩ | ⟨h, _⟩
@@ -342,16 +361,14 @@ theorem readLoop_ok {k : Codec} {o : ChunkReader.Reader} :
             · exact absurd h hne
             · exact ⟨hL1, by show s.cr.seekPos = r'.dhi; rw [f.dhi]; exact hsp⟩
         have hpot1 : pot r' (n - z) < fuel := by
-          have h0 : pot s.r n = 4 * n + (if s.r.pos < s.r.dhi then 0 else 3) := by
-            simp only [pot, potv, hph]
-            split <;> simp [*]
+          have h0 := pot_C s.r n hph
           rw [h0] at hpot
           rcases hzph with ⟨hA, hpe⟩ | ⟨hC, hlt, hzn, _⟩
-          · have h1 : pot r' (n - z) = 4 * (n - z) + 2 := by simp [pot, potv, hA]
+          · have h1 := pot_A r' (n - z) hA
             rw [h1]
             split at hpot <;> omega
           · have h1 : pot r' (n - z) ≤ 4 * (n - z) + 3 := by
-              simp only [pot, potv, hC]
+              rw [pot_C _ _ hC]
               split <;> omega
             split at hpot <;> omega
         obtain ⟨s', rest, e, hrun, hbytes, hlen, hfull, hfet, hg', hinv', hnone, hsome⟩ :=
@@ -376,9 +393,9 @@ theorem readLoop_ok {k : Codec} {o : ChunkReader.Reader} :
           have : owed s.r ≤ z + owed r' := by
             by_cases hlt : s.r.pos < s.r.dhi
             · have : 0 < z := by omega
-              have : owed s.r ≤ 1 := by unfold owed owedv; split <;> omega
+              have : owed s.r ≤ 1 := owed_le _
               omega
-            · have : owed s.r = 0 := by simp [owed, owedv, hph, hlt]
+            · have : owed s.r = 0 := by rw [owed_C _ hph]; simp [hlt]
               omega
           omega
         · intro h
@@ -390,7 +407,9 @@ theorem readLoop_ok {k : Codec} {o : ChunkReader.Reader} :
           rw [hzp, List.length_append, hzl]; omega
 
 theorem pot_lt_readFuel (r : R) (n : Nat) : pot r n < readFuel n := by
-  unfold pot readFuel potv
-  split <;> omega
+  have : potv r.phase (decide (r.pos < r.dhi)) ≤ 4 := by
+    unfold potv; split <;> omega
+  unfold pot readFuel
+  omega
 
 end WuffsVerif.Rac.ByteReader
